@@ -142,7 +142,110 @@ def scan_registry(headers):
     return {k: sorted(v, key=lambda s: s.encode()) for k, v in reg.items()}
 
 
-def registry_source(header_names, reg):
+_SVC_STRUCT_RE = re.compile(r'struct\s+(\w+)_Service\s*\{\s*ProtobufCService\s+base;(.*?)\n\};', re.S)
+_SVC_MEMBER_RE = re.compile(r'void\s+\(\*(\w+)\)\((\w+)_Service\s+\*service,\s*const\s+(\w+)\s+\*input,\s*'
+                            r'(\w+)_Closure\s+closure,\s*void\s+\*closure_data\);')
+_SVC_INIT_RE = re.compile(r'void\s+(\w+)__init\s+\((\w+)_Service\s+\*service,')
+_SVC_BASE_INIT_RE = re.compile(r'#define\s+(\w+)__BASE_INIT\s+\\\n\s*\{\s*&(\w+)__descriptor,')
+
+
+def scan_services(headers):
+    """headers: {relative name: text}.  Finds what c_service.cc emits for every service: the struct
+    <Cname>_Service with its handler members, <lcfullname>__init, the <UCFULLNAME>__INIT macro and the stubs
+    <lcfullname>__<method>.  Returns a list (sorted by descriptor symbol) of dicts
+    {'cname', 'lc', 'uc', 'sym', 'members': [(member, input C type, output C type)], 'stubs': [function names]};
+    'stubs' are in header order, which is the order the service tests call them in (SS lines)."""
+    res = []
+    for name in sorted(headers):
+        text = headers[name]
+        lc_of = {c: lc for lc, c in _SVC_INIT_RE.findall(text)}
+        uc_of = {lc: uc for uc, lc in _SVC_BASE_INIT_RE.findall(text)}
+        for cname, body in _SVC_STRUCT_RE.findall(text):
+            lc = lc_of.get(cname)
+            if lc is None or lc not in uc_of:
+                continue
+            members = [(m, i, o) for m, c, i, o in _SVC_MEMBER_RE.findall(body) if c == cname]
+            stubs = re.findall(r'^void\s+(%s__\w+)\(ProtobufCService\s+\*service,' % re.escape(lc), text, re.M)
+            res.append({'cname': cname, 'lc': lc, 'uc': uc_of[lc], 'sym': lc + '__descriptor', 'members': members,
+                        'stubs': stubs})
+    return sorted(res, key=lambda d: d['sym'].encode())
+
+
+def service_test_source(svcs):
+    """C code (appended to registry.c) that exercises the generated service code of every scanned service and
+    prints the SS / SI / SX lines of GENFORMAT.md; ends with the table all_svc_tests[]."""
+    out = ['',
+           '/* ---- service tests (GENFORMAT.md: SS SI SX) */',
+           '#include <stdio.h>',
+           '#include <string.h>',
+           'typedef void (*SvctFn)(void);',
+           'typedef struct { const ProtobufCServiceDescriptor *desc; void (*run)(void); } DescDumpSvcTest;',
+           'static void svct_name(const char *tag, const ProtobufCServiceDescriptor *d)',
+           '{',
+           '  const char *s = d->name;',
+           '  fputs(tag, stdout);',
+           '  if (s == NULL) { fputs(" NULL", stdout); return; }',
+           '  fputs(" s:", stdout);',
+           '  for (; *s; s++) printf("%02x", (unsigned char)*s);',
+           '}']
+    for k, sv in enumerate(svcs):
+        p = 'svct%d' % k
+        c, lc, uc, members, stubs = sv['cname'], sv['lc'], sv['uc'], sv['members'], sv['stubs']
+        n = len(members)
+        out.append('/* %s */' % c)
+        out.append('static int %s_fired; static const void *%s_in; static SvctFn %s_cl; static void *%s_data;'
+                   % (p, p, p, p))
+        for j, (m, it, ot) in enumerate(members):
+            out.append('static void %s_h_%s(%s_Service *service, const %s *input, %s_Closure closure, void *closure_data)'
+                       % (p, m, c, it, ot))
+            out.append('{ (void)service; %s_fired = %d; %s_in = input; %s_cl = (SvctFn)closure; %s_data = closure_data; }'
+                       % (p, j, p, p, p))
+            out.append('static void %s_c%d(const %s *message, void *closure_data) { (void)message; (void)closure_data; }'
+                       % (p, j, ot))
+        out.append('static %s_Service *%s_destroyed;' % (c, p))
+        out.append('static void %s_destroy(%s_Service *s) { %s_destroyed = s; }' % (p, c, p))
+        out.append('static void %s_run(void)' % p)
+        out.append('{')
+        out.append('  const ProtobufCServiceDescriptor *d = &%s;' % sv['sym'])
+        out.append('  static %s_Service svc = %s__INIT(%s_h_);' % (c, uc, p))
+        out.append('  static long long in_obj[%d], data_obj[%d];' % (n + 1, n + 1))
+        out.append('  %s_Service t;' % c)
+        out.append('  int all_null = 1;')
+        out.append('  (void)in_obj; (void)data_obj; (void)svc;')
+        # the i-th stub of the header against the handler that fires
+        for i, stub in enumerate(stubs):
+            if i >= n:
+                break
+            it, ot = members[i][1], members[i][2]
+            out.append('  %s_fired = -1; %s_in = NULL; %s_cl = (SvctFn)0; %s_data = NULL;' % (p, p, p, p))
+            out.append('  %s(&svc.base, (const %s *)(const void *)&in_obj[%d], %s_c%d, &data_obj[%d]);'
+                       % (stub, it, i, p, i, i))
+            out.append('  svct_name("SS", d);')
+            out.append('  printf(" %d %%d %%d %%d %%d\\n", %s_fired, %s_in == (const void *)&in_obj[%d], '
+                       '%s_cl == (SvctFn)%s_c%d, %s_data == (void *)&data_obj[%d]);' % (i, p, p, i, p, p, i, p, i))
+        out.append('  memset(&t, 0xAA, sizeof t);')
+        out.append('  %s__init(&t, %s_destroy);' % (lc, p))
+        for m, _it, _ot in members:
+            out.append('  if (t.%s != NULL) all_null = 0;' % m)
+        out.append('  svct_name("SI", d);')
+        out.append('  printf(" %%d %%d %%d\\n", t.base.descriptor == d && t.base.invoke == protobuf_c_service_invoke_internal, '
+                   't.base.destroy == (ProtobufCServiceDestroy)%s_destroy, all_null);' % p)
+        out.append('  %s_destroyed = NULL;' % p)
+        out.append('  protobuf_c_service_destroy(&t.base);')
+        out.append('  svct_name("SX", d);')
+        out.append('  printf(" %%d\\n", %s_destroyed == &t);' % p)
+        out.append('  fflush(stdout);')
+        out.append('}')
+    out.append('const DescDumpSvcTest all_svc_tests[] = {')
+    for k, sv in enumerate(svcs):
+        out.append('  { &%s, svct%d_run },' % (sv['sym'], k))
+    out.append('  { NULL, NULL }')
+    out.append('};')
+    out.append('const unsigned n_all_svc_tests = %d;' % len(svcs))
+    return '\n'.join(out) + '\n'
+
+
+def registry_source(header_names, reg, svcs=()):
     out = ['/* generated by genloop.py */', '#include <stddef.h>', '#include <protobuf-c/protobuf-c.h>']
     for h in sorted(header_names):
         out.append('#include "%s"' % h)
@@ -154,7 +257,7 @@ def registry_source(header_names, reg):
         out.append('  NULL')
         out.append('};')
         out.append('const unsigned n_%s = %d;' % (arr, len(syms)))
-    return '\n'.join(out) + '\n'
+    return '\n'.join(out) + '\n' + service_test_source(list(svcs))
 
 
 def _walk_files(top):
@@ -289,7 +392,7 @@ def run_case(workdir, protos, root, cc_std_list=('c99', 'c11'), check_cxx=True, 
         reg = scan_registry({h: res['generated'][h] for h in h_files})
         reg_c = os.path.join(linkdir, 'registry.c')
         with open(reg_c, 'w') as fh:
-            fh.write(registry_source(h_files, reg))
+            fh.write(registry_source(h_files, reg, scan_services({h: res['generated'][h] for h in h_files})))
         exe = os.path.join(linkdir, 'desc_dump')
         # -no-pie: fixed link-time addresses, so that stray pointers in dumped memory do not vary from run to run
         cmd = ['gcc', '-std=' + use_std, '-Wall', '-no-pie', '-I' + REPO, '-I' + outdir, reg_c,
@@ -376,7 +479,8 @@ def parse_fd_dump(text):
     return files
 
 
-_DD_ARITY = {'MD': 8, 'MF': 10, 'MR': 2, 'MI': 1, 'MU': 1, 'ED': 7, 'EV': 4, 'ER': 2, 'SD': 5, 'SM': 4}
+_DD_ARITY = {'MD': 8, 'MF': 10, 'MR': 2, 'MI': 1, 'MU': 1, 'ED': 7, 'EV': 4, 'ER': 2, 'SD': 5, 'SM': 4,
+             'ML': 2, 'MK': 2, 'EL': 2, 'EK': 2, 'SL': 2, 'SS': 6, 'SI': 4, 'SX': 2}
 
 
 def parse_desc_dump(text):
@@ -428,6 +532,12 @@ def parse_desc_dump(text):
             cur['methods'].append((int(a[0]), unhex_token(a[1]), a[2], a[3]))
         elif k == 'SN':
             cur['by_name'] = None if a == ['NULL'] else [int(x) for x in a if x != '']
+        elif k in ('ML', 'EL', 'SL'):
+            cur.setdefault('lookups_by_name', []).append((unhex_token(a[0]), int(a[1])))
+        elif k in ('MK', 'EK'):
+            cur.setdefault('lookups_by_number', []).append((int(a[0]), int(a[1])))
+        elif k in ('SS', 'SI', 'SX'):
+            cur.setdefault('service_tests', []).append((k,) + tuple(int(x) for x in a[1:]))
         else:
             raise ValueError('desc_dump line %d: unknown kind %r' % (ln, line))
     for m in res['messages']:
